@@ -12,6 +12,7 @@ pub fn harnesses() -> Vec<Harness> {
         Harness { name: "c10_metrics", property: "C10", f: c10_metrics, about: "quoting metrics equal ghost values (records within range, capacity, payments) and survive a restart" },
         Harness { name: "c04_unverified_put", property: "C04", f: c04_unverified_put, about: "RecordStore::put (records arriving from the network): never readable before validation, oversized or unparseable ones refused, only forwarded for validation" },
         Harness { name: "c01_history", property: "C01", f: c01_history, about: "histories of put/overwrite/remove/get with arbitrary completion order of background tasks of different keys" },
+        Harness { name: "c01_sizes", property: "C01", f: c01_sizes, about: "two writes of one key with sizes from {tiny, a full 1 MiB chunk, the largest accepted value}: reads return the last accepted write at every stage, whatever its size" },
         Harness { name: "c02_crash", property: "C02", f: c02_crash, about: "history, then crash with a subset of tasks run and one torn write (every prefix), then restart over the same directory" },
     ]
 }
@@ -286,7 +287,31 @@ fn c10_metrics() {
     if has_range {
         w.driver.node_store().set_responsible_distance_range(U256(range));
     }
-    note(format!("cap={cap} held={n_held} payments={payments} has_range={has_range}"));
+    // between setting the range and quoting, the store keeps working: an update of a held key, a removal, a new key
+    // (a figure cached when the range was set must follow these)
+    let after = choice(4);
+    match after {
+        1 => {
+            let _ = w.driver.arm_put_local_record(nonchunk_record(&key(0), 1));
+            w.settle();
+            let _ = w.driver.arm_put_local_record(nonchunk_record(&key(0), 2));
+            w.settle();
+            cover("held_key_updated_after_range_was_set");
+        }
+        2 => {
+            w.driver.store().remove(&key(0));
+            w.settle();
+            cover("held_key_removed_after_range_was_set");
+        }
+        3 => {
+            let _ = w.driver.arm_put_local_record(chunk_record(&key(7), 0));
+            w.settle();
+            cover("new_key_put_after_range_was_set");
+        }
+        _ => {}
+    }
+    let n_held = w.driver.node_store().records.len();
+    note(format!("cap={cap} held={n_held} payments={payments} has_range={has_range} after_range={}", ["nothing", "update of key0 twice", "remove key0", "put key7"][after]));
     let probe = key(0);
     let store = w.driver.node_store();
     let (m, is_stored) = store.quoting_metrics(&probe, Some(1000));
@@ -531,6 +556,56 @@ fn c01_history() {
             }
         }
     }
+}
+
+/// a record of exactly `len` value bytes with a decodable non-chunk header (`variant` varies the payload)
+fn sized_record(k: &Key, len: usize, variant: u8) -> Record {
+    let head = ant_protocol::storage::try_serialize_record(&vec![variant], ant_protocol::storage::RecordKind::Scratchpad).expect("serialise").to_vec();
+    let mut value = head;
+    assert!(len >= value.len());
+    let fill = len - value.len();
+    value.extend((0..fill).map(|i| (i as u8) ^ variant));
+    Record { key: k.clone(), value, publisher: None, expires: None }
+}
+
+/// Accepted writes are readable exactly as written whatever their size: the sizes that matter are the ends of the
+/// accepted range and the size of a full chunk (any size-dependent shortcut in the store sits between them).
+fn c01_sizes() {
+    pin_hashes(1);
+    let mut w = World::new(100, 2);
+    settle_labelled(&mut w);
+    let max = w.driver.node_store().config.max_value_bytes;
+    let sizes = [16usize, 1024 * 1024 + 8, max - 1];
+    let k = key(0);
+    let (ia, ib) = (choice(3), choice(3));
+    let a = sized_record(&k, sizes[ia], 1);
+    let b = sized_record(&k, sizes[ib], 2);
+    note(format!("first write {} bytes, second write {} bytes (max_value_bytes={max})", sizes[ia], sizes[ib]));
+    env::set_task_label(&key_name(&k));
+    check_bool("sizes:first_write_accepted", w.driver.arm_put_local_record(a.clone()).is_ok());
+    let read = |w: &mut World| w.driver.store().get(&k).map(|c| c.into_owned().value);
+    let first = read(&mut w);
+    check_bool("sizes:read_after_first_write_returns_it_or_nothing", first.is_none() || first.as_ref() == Some(&a.value));
+    let settle_between = choice(2) == 1;
+    if settle_between {
+        settle_labelled(&mut w);
+        check_bool("sizes:read_after_first_write_settled_returns_it", read(&mut w).as_ref() == Some(&a.value));
+    }
+    env::set_task_label(&key_name(&k));
+    check_bool("sizes:second_write_accepted", w.driver.arm_put_local_record(b.clone()).is_ok());
+    // before the background work has settled a read may return either accepted write, never anything else
+    let got = read(&mut w);
+    check_bool("sizes:read_before_settling_returns_an_accepted_write", got.as_ref() == Some(&b.value) || got.as_ref() == Some(&a.value));
+    settle_labelled(&mut w);
+    cover("settled");
+    let got = read(&mut w);
+    check_bool("sizes:settled_read_returns_the_last_accepted_write", got.as_ref() == Some(&b.value));
+    let on_disk = {
+        let st = w.driver.node_store();
+        NodeRecordStore::read_from_disk(&st.encryption_details, &k, &st.config.storage_dir).map(|c| c.into_owned().value)
+    };
+    check_bool("sizes:file_holds_the_last_accepted_write", on_disk.as_ref() == Some(&b.value));
+    check_views_agree(w.driver.node_store(), "sizes");
 }
 
 // ------------------------------------------------------------------ C02
